@@ -814,6 +814,8 @@ def MatchExpr(e, m, tks, result = None):
     elif isinstance(e, ExprOp):
         if not isinstance(m, ExprOp):
             return False
+        if e.op != m.op or len(e.args) != len(m.args):
+            return False
         for a1, a2 in zip(e.args, m.args):
             r = MatchExpr(a1, a2, tks, result)
             if r == False:
